@@ -97,6 +97,50 @@ type CSSReplayFile struct {
 	Detail   string `json:"detail"`
 	Prop     string `json:"css_property"`
 	Value    string `json:"value"`
+	Scoped   string `json:"scoped_for,omitempty"` // set for the scoped end-to-end check: the property the policy was built for
+}
+
+type scopedFinding struct{ pr, value, detail string }
+
+// scopedStyleCheck sanitises through the element and element-pattern scopes with the property named together with others in one
+// AllowStyles call: each property must be judged by ITS OWN default handler, an unknown one by none.
+func scopedStyleCheck(prop string) []scopedFinding {
+	other, foreign := "font-family", "arial"
+	if prop == "font-family" {
+		other, foreign = "color", "red"
+	}
+	const unk = "zz-no-such-property"
+	r := Recipe{{M: "NewPolicy"}, {M: "AllowElements", Names: []string{"span"}}, {M: "AllowElementsMatching", Pat: "^custom-"},
+		{M: "AllowStyles", Props: []string{other, prop, unk}, Scope: "pat", Pat: "^custom-"},
+		{M: "AllowStyles", Props: []string{unk, prop, other}, Scope: "els", Els: []string{"span"}}}
+	for i := range r {
+		r[i].norm()
+	}
+	sp := BuildReal(r)
+	direct, _ := handlerAccepts(prop, foreign)
+	var fs []scopedFinding
+	for _, el := range []string{"custom-x", "span"} {
+		for _, pr := range []string{prop, unk} {
+			in := `<` + el + ` style="` + pr + `: ` + foreign + `">t</` + el + `>`
+			out := sp.Sanitize(in)
+			keptDecl := false
+			for _, t := range Tokens([]byte(out)) {
+				for _, a := range t.A {
+					if a.K == "style" && strings.Contains(a.V, pr) {
+						keptDecl = true
+					}
+				}
+			}
+			if keptDecl && (pr == unk || !direct) {
+				why := "the default handler of " + prop + " rejects " + foreign
+				if pr == unk {
+					why = "an unknown property has no default handler"
+				}
+				fs = append(fs, scopedFinding{pr, foreign, fmt.Sprintf("Sanitize(%q) = %q under AllowStyles(%q, %q, %q) without a matcher: the declaration is kept although %s", in, out, other, prop, unk, why)})
+			}
+		}
+	}
+	return fs
 }
 
 func handlerAccepts(prop, v string) (ok bool, panicked string) {
@@ -123,12 +167,22 @@ func cmdReplayCSS(args []string) int {
 	rejectedAtom := map[string]bool{}
 	pols := map[string]*polCacheEntry{}
 	e2e := 0
+	scopedDone := map[string]bool{}
 	add := func(key, det, prop, v string) {
 		if !seen[key] || len(res.Violations) < 8 {
 			seen[key] = true
 			os.MkdirAll(ReplayDir(), 0o755)
 			path := fmt.Sprintf("%s/C18-%08x.json", ReplayDir(), hashString(prop+"|"+v))
-			os.WriteFile(path, JSON(CSSReplayFile{"C18", key, det, prop, v}), 0o644)
+			os.WriteFile(path, JSON(CSSReplayFile{"C18", key, det, prop, v, ""}), 0o644)
+			res.Violations = append(res.Violations, ViolationRec{Finding{"C18", key, det}, path})
+		}
+	}
+	addScoped := func(key, det, prop, v, scopedFor string) {
+		if !seen[key] || len(res.Violations) < 8 {
+			seen[key] = true
+			os.MkdirAll(ReplayDir(), 0o755)
+			path := fmt.Sprintf("%s/C18-%08x.json", ReplayDir(), hashString("scoped|"+scopedFor+"|"+prop))
+			os.WriteFile(path, JSON(CSSReplayFile{"C18", key, det, prop, v, scopedFor}), 0o644)
 			res.Violations = append(res.Violations, ViolationRec{Finding{"C18", key, det}, path})
 		}
 	}
@@ -212,6 +266,14 @@ func cmdReplayCSS(args []string) int {
 					if kept {
 						add("e2e:"+c.Prop, fmt.Sprintf("Sanitize(%q) with AllowStyles(%q).Globally() = %q keeps the hostile fragment", in, c.Prop, out), c.Prop, v)
 					}
+					// the same through the element and element-pattern scopes, the property named together with others in one
+					// AllowStyles call: each property must be judged by ITS OWN default handler, an unknown one by none
+					if !scopedDone[c.Prop] {
+						scopedDone[c.Prop] = true
+						for _, f := range scopedStyleCheck(c.Prop) {
+							addScoped("e2e-handler:"+f.pr, f.detail, f.pr, f.value, c.Prop)
+						}
+					}
 				}
 				if len(res.Samples) < 4 && len(c.Atoms) > 0 && res.Cases%5003 == 0 {
 					res.Samples = append(res.Samples, map[string]interface{}{"property": c.Prop, "value": v, "fragment": Dec(c.Frag), "mode": c.Mode, "spec_verdict": c.Verdict})
@@ -248,6 +310,17 @@ func reproC18(path string) int {
 	if err := LoadJSONFile(path, &rf); err != nil {
 		fmt.Fprintln(os.Stderr, err)
 		return 2
+	}
+	if rf.Scoped != "" {
+		fs := scopedStyleCheck(rf.Scoped)
+		for _, f := range fs {
+			fmt.Printf("VIOLATION property=C18 replay=%s\n  %s\n", path, f.detail)
+		}
+		if len(fs) > 0 {
+			return 1
+		}
+		fmt.Println("property holds on this replay")
+		return 0
 	}
 	got, pm := handlerAccepts(rf.Prop, rf.Value)
 	fmt.Printf("GetDefaultHandler(%q)(%q) = %v %s\n", rf.Prop, rf.Value, got, pm)
